@@ -62,6 +62,12 @@ theorem flushSinks_strip (s : BSt) : stripOut (flushSinks s) = stripOut s := by
     rw [ih]
     split <;> rfl
 
+theorem preEraseFlush_strip (s : BSt) : stripOut (preEraseFlush s) = stripOut s := by
+  unfold preEraseFlush
+  split
+  · exact flushSinks_strip s
+  · rfl
+
 theorem reapSinks_strip (sids : List Nat) : ∀ (s : BSt), stripOut (reapSinks s sids) = stripOut s := by
   unfold reapSinks
   induction sids with
@@ -496,6 +502,7 @@ theorem CInv_closed : Closed CInv where
   siteCnt := fun _ _ h => h
   emitInj := fun _ _ _ _ _ h => h
   clock := fun _ _ h => h
+  lastFlush := fun _ _ h => h
   gone := fun _ h => h
   refresh := fun s h => by unfold CInv; rw [core_refresh]; exact CI.refresh h
   allEmpty := CInv_allEmpty
